@@ -67,6 +67,15 @@ def run(run, replay=None):
         run.count(text, nontrivial=len(calls) >= 3)
         cid += 1
     run.sample({'kind': 'file', 'head': text[:160], 'tokens': [(t, v[:20]) for t, v in toks[:8]]})
+    # header lines whose options are not in the writer's canonical form (losslessness holds for ALL strings)
+    for text in ('#diffx: encoding=utf-8,version=1.0\n#.change:\n', '#diffx: encoding=utf-8, version=1.0\n#.change: \n#..file: x\n',
+                 '#diffx: version=1.0\n#.change:\n#..file:\n#...diff: length=\nabc\n', '#.meta: a=b,  c=d ,e\n{}\n',
+                 '#..file: =\n', '#diffx:  version=1.0\n', '#.change: a=1,\n', '#.preamble: length=3;indent=2\nabc\n'):
+        toks, exc = lex(text)
+        cases.append({'id': cid, 'kind': 'text', 'enc': NOENC, 'calls': [], 'input': cps(text),
+                      'tokens': [{'t': t, 'v': cps(v)} for t, v in toks], 'exc': exc})
+        run.count(text, nontrivial=True)
+        cid += 1
     for n in range(600 if quick else 20000):
         r = rng.random()
         if r < 0.4:
